@@ -39,9 +39,12 @@ Qed.
 Lemma build_wf c r : call_wf c -> build c = Ok r -> request_wf r.
 Proof.
   destruct c as [s n|s n|s n|s n|i v|i v|s vs|s vs]; cbn [call_wf build]; intros Hwf H.
-  1,2,3,4: destruct Hwf as [Hs Hn]; destruct (try_from s n) as [e|rg] eqn:E; cbn [of_range obind] in H; [discriminate|];
-    unfold of_read_bits, of_read_registers, limited_count in H; destruct (_ <? snd rg); cbn [of_range obind] in H; [discriminate|];
-    inversion H; subst; cbn [request_wf]; apply (try_from_wf s n); assumption.
+  1,2,3,4: destruct Hwf as [Hs Hn]; unfold of_read_bits, of_read_registers, limited_count in H; cbn [fst snd] in H;
+    destruct (try_from s n) as [e|rg] eqn:E; cbn [of_range obind] in H; [discriminate|];
+    destruct (_ <? snd rg); cbn [of_range obind] in H; [discriminate|];
+    inversion H; subst; cbn [request_wf];
+    assert (rg = (s, n)) as <- by (revert E; unfold try_from; destruct (n =? 0); [discriminate|]; destruct (_ <? s); [discriminate|]; now intros [= <-]);
+    apply (try_from_wf s n); assumption.
   1,2: inversion H; exact I.
   1,2: unfold write_multiple_from in H; destruct (N.ltb_spec 65535 (N.of_nat (length vs))); cbn [obind] in H; [discriminate|];
     destruct (try_from s (N.of_nat (length vs))) as [e|rg] eqn:E; cbn [of_range obind] in H; [discriminate|];
